@@ -6,8 +6,10 @@ package core
 import (
 	"fmt"
 	"go/ast"
+	"go/constant"
 	"go/token"
 	"go/types"
+	"golang.org/x/tools/go/ast/astutil"
 	"os"
 	"path/filepath"
 	"sort"
@@ -357,12 +359,77 @@ func (f *Func) Use() LitUse {
 // canonicalise rewrites, in place, spellings that differ only in operand order so that the
 // rules see one form: a comparison with a constant (or nil) on the left and a non-constant on
 // the right is turned round (`0 == x` → `x == 0`, `-1 != seed` → `seed != -1`, `0 < n` →
-// `n > 0`). The type information of the operands is keyed by their own nodes and stays valid.
+// `n > 0`); `x += 1` / `x -= 1` on an integer becomes `x++` / `x--`. The type information of the operands is keyed by their own nodes and stays valid.
 func canonicalise(info *types.Info, f *ast.File) {
 	isConst := func(e ast.Expr) bool {
 		tv, ok := info.Types[e]
 		return ok && (tv.Value != nil || tv.IsNil())
 	}
+	// `x += 1` / `x -= 1` on an integer → `x++` / `x--`
+	astutil.Apply(f, func(cur *astutil.Cursor) bool {
+		as, ok := cur.Node().(*ast.AssignStmt)
+		if !ok || (as.Tok != token.ADD_ASSIGN && as.Tok != token.SUB_ASSIGN) || len(as.Lhs) != 1 || len(as.Rhs) != 1 {
+			return true
+		}
+		tv, ok := info.Types[as.Rhs[0]]
+		if !ok || tv.Value == nil || tv.Value.Kind() != constant.Int {
+			return true
+		}
+		if v, exact := constant.Int64Val(tv.Value); !exact || v != 1 {
+			return true
+		}
+		if bt, isB := info.TypeOf(as.Lhs[0]).Underlying().(*types.Basic); !isB || bt.Info()&types.IsInteger == 0 {
+			return true
+		}
+		tok := token.INC
+		if as.Tok == token.SUB_ASSIGN {
+			tok = token.DEC
+		}
+		// only where a statement can be replaced in place (not the post statement of a for clause, which
+		// astutil can also replace; both are fine)
+		cur.Replace(&ast.IncDecStmt{X: as.Lhs[0], TokPos: as.TokPos, Tok: tok})
+		return true
+	}, nil)
+	// integer comparisons next to zero are spelled with the constant 0:
+	// `x < 1` → `x <= 0`, `x >= 1` → `x > 0`, `x > -1` → `x >= 0`, `x <= -1` → `x < 0`
+	defer ast.Inspect(f, func(n ast.Node) bool {
+		be, ok := n.(*ast.BinaryExpr)
+		if !ok {
+			return true
+		}
+		tv, ok := info.Types[be.Y]
+		if !ok || tv.Value == nil || tv.Value.Kind() != constant.Int {
+			return true
+		}
+		xt := info.TypeOf(be.X)
+		if xt == nil {
+			return true
+		}
+		if bt, isB := xt.Underlying().(*types.Basic); !isB || bt.Info()&types.IsInteger == 0 {
+			return true
+		}
+		v, exact := constant.Int64Val(tv.Value)
+		if !exact {
+			return true
+		}
+		var op token.Token
+		switch {
+		case be.Op == token.LSS && v == 1:
+			op = token.LEQ
+		case be.Op == token.GEQ && v == 1:
+			op = token.GTR
+		case be.Op == token.GTR && v == -1:
+			op = token.GEQ
+		case be.Op == token.LEQ && v == -1:
+			op = token.LSS
+		default:
+			return true
+		}
+		zero := &ast.BasicLit{ValuePos: be.Y.Pos(), Kind: token.INT, Value: "0"}
+		info.Types[zero] = types.TypeAndValue{Type: tv.Type, Value: constant.MakeInt64(0)}
+		be.Op, be.Y = op, zero
+		return true
+	})
 	ast.Inspect(f, func(n ast.Node) bool {
 		be, ok := n.(*ast.BinaryExpr)
 		if !ok || !isConst(be.X) || isConst(be.Y) {
